@@ -282,7 +282,7 @@ func genScenario(rng *rand.Rand, id string) *scenario {
 			kc := kidCfg{Kind: k.Kind, Name: name, Value: values[rng.Intn(len(values))]}
 			// one desired child in eight carries a status block, as templates copied from live
 			// objects do (decided by the name, so that the rest of the scenario stream is unchanged)
-			switch h := sim.Hash(strings.ReplaceAll(name, id, "") + "status"); {
+			switch h := sim.Hash(strings.ReplaceAll(name, id, strings.TrimRight(id, "abcdefghijklmnopqrstuvwxyz")) + "status"); {
 			case h[0] == '0':
 				kc.Status = map[string]interface{}{}
 			case h[0] == '1':
